@@ -5,6 +5,7 @@ import (
 	"bytes"
 	"fmt"
 	"math"
+	"os"
 	"strings"
 	"testing"
 
@@ -21,12 +22,12 @@ import (
 func TestMain(m *testing.M) { pbt.Main(m) }
 
 const (
-	OpAppend = iota // Save(hs?, entries, no snapshot)
-	OpHardState     // Save(hs only)
-	OpInstall       // Save(hs, entries?, received snapshot)
-	OpCompact       // CreateSnapshot(i, cs, data)
-	OpReopen        // fresh NewBadgerWAL on the same DB (cold cache)
-	OpDelete        // DeleteGroup, then a new store for the same id
+	OpAppend    = iota // Save(hs?, entries, no snapshot)
+	OpHardState        // Save(hs only)
+	OpInstall          // Save(hs, entries?, received snapshot)
+	OpCompact          // CreateSnapshot(i, cs, data)
+	OpReopen           // fresh NewBadgerWAL on the same DB (cold cache)
+	OpDelete           // DeleteGroup, then a new store for the same id
 	nOps
 )
 
@@ -42,11 +43,13 @@ type Op struct {
 	Inside bool `json:"inside,omitempty"` // install: snapshot index inside the stale uncommitted tail (if any)
 	Big    int  `json:"big,omitempty"`    // payload size selector
 	Q      int  `json:"q,omitempty"`      // query variation seed
+	Same   bool `json:"same,omitempty"`   // delete-group: keep using the SAME store instance afterwards (as a partition does)
 }
 
 type Case struct {
 	Groups int  `json:"groups"` // 1..3
 	Ops    []Op `json:"ops"`
+	Disk   bool `json:"disk,omitempty"` // on-disk Badger opened with the server's options (values above the threshold live in the value log)
 }
 
 func (c Case) String() string {
@@ -141,6 +144,19 @@ func (g *group) compare(where string, q int) *pbt.Failure {
 		if f2 > 1 {
 			rs = append(rs, rng{f2 - 1, l2 + 1, math.MaxUint64})
 		}
+		// size limits within a few bytes of a cumulative-size boundary of the range (sizes from the reference's entries)
+		if full, err := g.ref.Entries(a, l2+1, math.MaxUint64); err == nil && len(full) > 0 {
+			j := (q / 3) % len(full)
+			var cum uint64
+			for _, e := range full[:j+1] {
+				cum += uint64(e.Size())
+			}
+			d := uint64(q % 5) // -2..+2
+			if cum+d >= 2 {
+				rs = append(rs, rng{a, l2 + 1, cum + d - 2})
+			}
+			rs = append(rs, rng{a, l2 + 1, cum})
+		}
 		for _, r := range rs {
 			x1, e1 := g.w.Entries(r.lo, r.hi, r.max)
 			x2, e2 := g.ref.Entries(r.lo, r.hi, r.max)
@@ -163,8 +179,13 @@ func (g *group) compare(where string, q int) *pbt.Failure {
 	return nil
 }
 
+var hugePayloads bool // on-disk mode: one size class is above Badger's value threshold of the server's options
+
 func payload(i uint64, term uint64, big int) []byte {
 	n := []int{0, 1, 8, 40, 300}[big%5]
+	if hugePayloads && big%5 == 4 {
+		n = 17000 + int(i%7)
+	}
 	b := bytes.Repeat([]byte{byte(i), byte(term)}, n/2+1)[:n]
 	return b
 }
@@ -174,7 +195,24 @@ func (g *group) hardState() raftpb.HardState {
 }
 
 func check(c Case, o *pbt.Obs) *pbt.Failure {
-	db := hutil.MemDB()
+	var db *badger.DB
+	hugePayloads = c.Disk
+	if c.Disk {
+		dir, err := os.MkdirTemp("", "c06disk")
+		if err != nil {
+			panic(err)
+		}
+		defer os.RemoveAll(dir)
+		// the options server.go uses, with the value threshold lowered from 1 MiB to 16 KiB (and smaller tables) so that
+		// entries living in the value log - in production: batch writes above 1 MiB - are cheap to generate
+		db, err = badger.Open(badger.LSMOnlyOptions(dir).WithLogger(nil).WithValueThreshold(16 << 10).WithMaxTableSize(16 << 20).WithNumMemtables(2).WithSyncWrites(false).WithCompactL0OnClose(false))
+		if err != nil {
+			panic(err)
+		}
+		o.Label("on-disk")
+	} else {
+		db = hutil.MemDB()
+	}
 	defer db.Close()
 	ng := c.Groups
 	gs := make([]*group, ng)
@@ -326,6 +364,11 @@ func check(c Case, o *pbt.Obs) *pbt.Failure {
 				return pbt.Failf("C06:delete-error", "%s group %s: DeleteGroup returned %v", where, g.id, err)
 			}
 			ng2 := newGroup(db, g.id)
+			if op.Same {
+				// storage.partition keeps its log store object across unloadRaft (DeleteGroup) / loadRaft
+				ng2.w = g.w
+				o.Label("delete-then-reuse-same-instance")
+			}
 			gs[gi] = ng2
 			g = ng2
 			compactedOrInstalled[gi] = false
@@ -380,16 +423,33 @@ func genCase(t *rapid.T) Case {
 		case OpCompact:
 			o.N = rapid.IntRange(0, 200).Draw(t, "n")
 			o.Big = rapid.IntRange(0, 4).Draw(t, "big")
+		case OpDelete:
+			o.Same = rapid.Bool().Draw(t, "same")
 		}
 		return o
 	})
 	return Case{Groups: rapid.IntRange(1, 3).Draw(t, "groups"), Ops: rapid.SliceOfN(op, 3, maxOps).Draw(t, "ops")}
 }
 
+func genDiskCase(t *rapid.T) Case {
+	c := genCase(t)
+	c.Disk = true
+	return c
+}
+
+func TestWalOnDiskVsMemoryStorage(t *testing.T) {
+	pbt.Run(t, pbt.Prop[Case]{
+		ID: "C06", Name: "TestWalOnDiskVsMemoryStorage",
+		Rule:  "the same generated call sequences and oracle as TestWalVsMemoryStorage, over an on-disk Badger opened with the options server.go uses (LSMOnlyOptions) except that the value threshold is lowered from 1 MiB to 16 KiB, with one payload size class of 17000-17006 bytes, so that some entries live in the value log (in production: batch writes above 1 MiB) and others in the LSM tree; size-limited Entries() queries include limits within 2 bytes of a cumulative-size boundary; non-trivial and distinct as in TestWalVsMemoryStorage",
+		Gen:   genDiskCase,
+		Check: check,
+	})
+}
+
 func TestWalVsMemoryStorage(t *testing.T) {
 	pbt.Run(t, pbt.Prop[Case]{
 		ID: "C06", Name: "TestWalVsMemoryStorage",
-		Rule: "rapid-generated raft-legal call sequences (contiguous appends incl. conflicting overwrites of the uncommitted tail from a newer term, hard-state saves with monotone term/commit, installs of received snapshots with index > commit both ahead of the log and inside the stale tail, optionally with following entries, CreateSnapshot(i) for snapshot < i <= commit, DeleteGroup + re-create, reopen = fresh NewBadgerWAL on the same in-memory Badger) over 1-3 groups in one DB (nil id, and two ids sharing a 15-byte prefix); after every call FirstIndex/LastIndex/Term(first-2..last+2)/Entries(ranges x size limits incl. 0 and no-limit, lo<first)/Snapshot/InitialState are compared with etcd raft.MemoryStorage fed the same calls, for the touched group and every other group; non-trivial = a reopen after a compaction or snapshot install, or >=2 groups interleaved; distinct = distinct case JSON",
+		Rule:  "rapid-generated raft-legal call sequences (contiguous appends incl. conflicting overwrites of the uncommitted tail from a newer term, hard-state saves with monotone term/commit, installs of received snapshots with index > commit both ahead of the log and inside the stale tail, optionally with following entries, CreateSnapshot(i) for snapshot < i <= commit, DeleteGroup + re-create, DeleteGroup and carrying on with the SAME store object as storage.partition does, reopen = fresh NewBadgerWAL on the same in-memory Badger) over 1-3 groups in one DB (nil id, and two ids sharing a 15-byte prefix); after every call FirstIndex/LastIndex/Term(first-2..last+2)/Entries(ranges x size limits incl. 0, no-limit and limits within 2 bytes of a cumulative-size boundary, lo<first)/Snapshot/InitialState are compared with etcd raft.MemoryStorage fed the same calls, for the touched group and every other group; non-trivial = a reopen after a compaction or snapshot install, or >=2 groups interleaved; distinct = distinct case JSON",
 		Gen:   genCase,
 		Check: check,
 	})
